@@ -286,3 +286,27 @@ Theorem C12_filter_outside_attempt_refuted :
     /\ crit accept raw_g (fun _ _ => AIterFail) p (Some t) = None.
 Proof. exact filter_outside_attempt_refuted. Qed.
 Print Assumptions C12_filter_outside_attempt_refuted.
+
+(** * the specification survives the guess: every state of a diagram passed the acceptance test AT ITS OWN point
+      (temperature, pressure, feed / specified composition), not at the point its guess came from *)
+Theorem C12_diagram_accepted : forall (P G R : Type) (accept : P -> R -> bool)
+    (solve : P -> option G -> option R) (ng : R -> G) (reset : option G),
+  (forall p g r, solve p g = Some r -> accept p r = true) ->
+  forall ps p r, In (p, r) (presults (run solve ng reset ps)) -> accept p r = true.
+Proof. exact diagram_accepted. Qed.
+Print Assumptions C12_diagram_accepted.
+
+Theorem C12_flash_continuation_accepted : forall (P G R : Type) (accept : P -> R -> bool)
+    (raw_g : P -> G -> attempt R) (raw_0 : P -> stage -> attempt R) (ng : R -> G) ps p r,
+  In (p, r) (presults (run (tp_flash (fatt_g accept raw_g) (fatt_0 accept raw_0)) ng None ps)) -> accept p r = true.
+Proof. exact lle_diagram_accepted. Qed.
+Print Assumptions C12_flash_continuation_accepted.
+
+(** with the test inside the attempt, a guessed branch that stays at the guess's point is rejected and the
+    stability-based start supplies the result at the requested point (witness) *)
+Theorem C12_guess_point_leak_refuted :
+  exists (accept : nat -> nat -> bool) (raw_g : nat -> nat -> attempt nat) (raw_0 : nat -> stage -> attempt nat) p g,
+    raw_g p g = AOk g /\ accept p g = false /\
+    tp_flash (fatt_g accept raw_g) (fatt_0 accept raw_0) p (Some g) = Some p.
+Proof. exact guess_point_leak_refuted. Qed.
+Print Assumptions C12_guess_point_leak_refuted.
